@@ -43,8 +43,8 @@ CHECKS = {
 
  'C18': ('other', 'The receive paths of ALL SIX example listeners (#included unmodified) are enforced against contracts for ANY datagram and recv result: every pointer/bounds obligation, termination (loop variants for the ACF-CAN message loop and the CRF media-clock search), the listener gives up only if a system call failed (ghost set by the trusted environment contracts), sample / NAL / timestamp queues stay well formed. ACF-CAN, AAF, CVF, CRF: each receive function and helper carries its own contract, is enforced against it and replaced by it in its callers. hello-world (GPC) and ACF-VSS: the receive code is the body of main()\'s while(1); it is closed by a loop contract (one iteration from an arbitrary state of all locals and the buffer) and printf string conversions are checked by an executable model. Library getters are replaced by their contracts, whose exact-extent preconditions turn a length field that reaches past the datagram into a failed call-site obligation. Bounded / assumed parts, stated in the evidence: CRF mclk_dequeue_ts is enforced on queues of depth 1..2 and the induction over loop iterations for the queue abstraction is by hand; fallback obligations (only used when the code was restructured so that a contract no longer attaches) are bounded.', '§5 C18 §13',
          NOTE_COMMON + 'Trusted contracts for recv / write / clock_gettime / timerfd_settime / malloc / memcpy; executable printf model; timeout()/tx paths, poll loops and socket set-up are not under contract; stale-byte reads are invisible to CBMC.', 'CBMC code contracts on the example receive functions + loop contracts (message loop, receive loops of main, media-clock search)'),
- 'C19': ('other', 'Talker: prepare_acf_packet (#included unmodified) is enforced against the ACF-CAN reference encoding of the input frame (type, length, pad, RTR/EFF/BRS/FDF/ESI, identifier, data, pad bytes, returned byte count) for every classic/FD frame - a proof. Listener: BOUNDED stand-in - the real listener and library are model-checked on the reference encoding (written from the oracle, not the library) of 1..2 (quick) / 1..3 (thorough) symbolic frames per packet, checking that exactly those frames reach the CAN socket with identical id, flags, length and data. The talker main loop (length accumulation, socket I/O) is not under contract.', '§5 C19',
-         NOTE_COMMON + 'recv/write stubs, bounded memcpy stand-in, frames per packet bounded.', 'CBMC code contract (talker builder) + bounded model checking (listener)'),
+ 'C19': ('other', 'Talker: (1) prepare_acf_packet (#included unmodified) is enforced against the ACF-CAN reference encoding of the input frame (type, length, pad, RTR/EFF/BRS/FDF/ESI, identifier, data, pad bytes, returned byte count) for every classic/FD frame - a proof; (2) the sending loop of main() is closed by two loop contracts (UDP/raw x TSCF/NTSCF as four obligations, classic/FD symbolic): messages are placed back to back inside the 1500-byte buffer for any requested count, every frame the CAN socket delivered is packed (ghost count of successful reads == messages built), and - as the precondition of the trusted sendto() contract, checked at the call - the enclosing TSCF/NTSCF header announces exactly the number of bytes that follow it in the datagram. Listener: BOUNDED stand-in - the real listener and library are model-checked on the reference encoding (written from the oracle, not the library) of 1..2 (quick) / 1..3 (thorough) symbolic frames per packet, checking that exactly those frames reach the CAN socket with identical id, flags, length and data. Not mechanised: that the datagram is the in-order concatenation of the messages (back-to-back placement + the frame clause of the builder).', '§5 C19 §13',
+         NOTE_COMMON + 'Trusted read()/sendto()/recv()/write() contracts and stubs, bounded memcpy stand-in, frames per packet bounded on the listener side.', 'CBMC code contracts (talker builder, talker sending loop with loop contracts) + bounded model checking (listener)'),
 }
 NA = {
  'C15': 'alignment- and optimisation-level behaviour are outside CBMC\'s byte-addressed memory model and outside source-level contracts (DESIGN.md §5 C15)',
